@@ -207,6 +207,8 @@ def run(ctx, rep):
     rule_keyorder(ctx, rep, rid="R-C06-keyorder")
     from rules import c06_globals
     c06_globals.run(ctx, rep, rid="R-C06-globals")
+    from rules.c02 import rule_scope
+    rule_scope(ctx, rep, rid="R-C06-scope")
     from rules.c02 import rule_bracket
     rule_bracket(ctx, rep, rid="R-C06-bracket")
     # the topological sort is what makes the later transforms independent of the order of declarations: a reference and its
